@@ -45,6 +45,7 @@ type dpol struct {
 }
 
 type dispatchState struct {
+	accounts map[string]any
 	pols   []dpol
 	data   *config.PoliciesData
 	svc    *services.PoliciesServices
@@ -53,6 +54,9 @@ type dispatchState struct {
 }
 
 func (d *dispatchState) addPol(w []string) string {
+	if d.accounts == nil {
+		d.accounts = map[string]any{}
+	}
 	scope, _ := proto.KV(w, "scope")
 	name, ok := proto.KV(w, "name")
 	kind, _ := proto.KV(w, "kind")
@@ -98,6 +102,31 @@ func (d *dispatchState) addPol(w []string) string {
 			"attempts": kvI(w, "attempts"), "initial_cooldown_seconds": kvI(w, "cooldown"), "cooldown_multiplier": kvI(w, "mult"),
 			"conditions": map[string]any{"status_code": []any{map[string]any{"from": kvI(w, "lo"), "to": kvI(w, "hi")}}},
 		}}
+	case "oauth", "apikey", "basic":
+		// authentication remedy; the account is created with the policy (o_auth => GenerateRequestAction,
+		// api_key / basic => ModifyRequestAction)
+		acc := fmt.Sprintf("acc%d", len(d.pols))
+		var auth map[string]any
+		switch kind {
+		case "oauth":
+			auth = map[string]any{"o_auth": map[string]any{"tokens": []any{
+				map[string]any{"name": "client_id", "value": "abc"}, map[string]any{"name": "client_secret", "value": "def"}}}}
+		case "apikey":
+			auth = map[string]any{"api_key": map[string]any{"tokens": []any{map[string]any{"name": "x-api-key", "value": "k1"}}}}
+		default:
+			auth = map[string]any{"basic": map[string]any{"username": "u", "password": "p"}}
+		}
+		d.accounts[acc] = map[string]any{"authentication": auth}
+		cfg = map[string]any{"authentication": map[string]any{"account": acc}}
+	case "acct":
+		acc := fmt.Sprintf("acc%d", len(d.pols))
+		d.accounts[acc] = map[string]any{"tokens": []any{map[string]any{"header": map[string]any{"name": "x-acct-token", "value": "t1"}}}}
+		cfg = map[string]any{"account_orchestration": map[string]any{"round_robin": []any{acc}}}
+	case "fixed":
+		cfg = map[string]any{"fixed_response": map[string]any{"status_code": kvI(w, "status")}}
+	case "cache":
+		cfg = map[string]any{"caching": map[string]any{"ttl_seconds": kvI(w, "ttl"), "max_record_size_bytes": kvI(w, "maxrec"),
+			"max_cache_size_megabytes": 1}}
 	default:
 		panic("harness: bad dpol kind")
 	}
@@ -129,7 +158,8 @@ func (d *dispatchState) load(dir string) string {
 	for _, e := range eps {
 		epsAny = append(epsAny, e)
 	}
-	doc := map[string]any{"global": map[string]any{"remedies": globals, "diagnosis": []any{}}, "endpoints": epsAny}
+	doc := map[string]any{"global": map[string]any{"remedies": globals, "diagnosis": []any{}}, "endpoints": epsAny,
+		"accounts": d.accounts}
 	b, err := yaml.Marshal(doc)
 	if err != nil {
 		panic("harness: " + err.Error())
@@ -187,6 +217,10 @@ func (d *dispatchState) req(w []string) string {
 	if d.data == nil {
 		return "no-config"
 	}
+	if _, ok := hs["content-type"]; !ok { // the o_auth remedy rewrites a JSON body
+		hs["content-type"] = "application/json"
+		hs["content-length"] = "2"
+	}
 	contextmanager.Get().GetMockClock().Set(time.Unix(0, t))
 	d.nreq++
 	id := fmt.Sprintf("q%d", d.nreq)
@@ -197,7 +231,7 @@ func (d *dispatchState) req(w []string) string {
 	}
 	out, err := runner.DispatchOnRequest(
 		lunarMessages.OnRequest{ID: id, SequenceID: id, Method: m, Scheme: "https", URL: url, Path: path, Headers: hs,
-			Time: time.Unix(0, t)},
+			Body: "{}", Time: time.Unix(0, t)},
 		&d.data.EndpointPolicyTree, &d.data.Config, d.svc, d.worker)
 	if err != nil {
 		return "err:dispatch"
